@@ -212,5 +212,6 @@ func runC17(c *Ctx) {
 				"runSignalReply blocks until the waiter receives or Done() closes; Done() is closed only by the receive loop's own exit, so a waiter that timed out between lookup and send strands the loop (and Close) forever")
 		}
 	}
-	c.R.Floor(r6, 1)
+	ruleWaiterRemoved(c, r6)
+	c.R.Floor(r6, 5)
 }
